@@ -86,23 +86,82 @@ pub fn enc_bool(b: bool) -> &'static str {
     }
 }
 
-/// Grapheme_Cluster_Break class of the characters the generators use (UAX #29 data is not
-/// exposed by `unicode-segmentation`; the agreement of the model's segmenter built on this
-/// column with the crate is itself a correspondence target).
-pub fn gcb_class(c: char) -> &'static str {
-    match c {
-        '\r' => "CR",
-        '\n' => "LF",
-        '\u{200D}' => "ZWJ",
-        '\u{0300}'..='\u{036F}' | '\u{FE00}'..='\u{FE0F}' | '\u{200C}' => "Extend",
-        '\u{1F3FB}'..='\u{1F3FF}' => "Extend",
-        '\u{1F1E6}'..='\u{1F1FF}' => "RI",
-        '\u{1F300}'..='\u{1F3FA}' | '\u{1F400}'..='\u{1FAFF}' | '\u{2600}'..='\u{27BF}' => "ExtPict",
-        c if c.is_control() => "Control",
-        '\u{0903}' => "SpacingMark",
-        '\u{0600}'..='\u{0605}' => "Prepend",
-        _ => "Other",
+/// Grapheme_Cluster_Break class (and Indic_Conjunct_Break as a `/C`, `/L`, `/E` suffix) of ANY
+/// character, read off `unicode-segmentation` itself by probing: the crate does not expose its
+/// tables, but each class is characterised by how the character clusters next to a few fixed
+/// witnesses (UAX #29 rules GB3-GB13).  The model's segmenter is built on this column; that it then
+/// agrees with the crate on whole strings is itself a correspondence target (`seg`).
+pub fn gcb_class(c: char) -> String {
+    use unicode_segmentation::UnicodeSegmentation;
+    fn ng(parts: &[&str]) -> usize {
+        parts.concat().graphemes(true).count()
     }
+    let cs = c.to_string();
+    let c = cs.as_str();
+    const KA: &str = "\u{0915}"; // InCB=Consonant
+    const VIRAMA: &str = "\u{094D}"; // InCB=Linker (gcb Extend)
+    const ZWJ: &str = "\u{200D}";
+    const PICT: &str = "\u{1F600}";
+    const HL: &str = "\u{1100}";
+    const HV: &str = "\u{1161}";
+    const HT: &str = "\u{11A8}";
+    const HLV: &str = "\u{AC00}";
+    let gb9c = ng(&[KA, VIRAMA, KA]) == 1; // does this version of the crate implement GB9c?
+    let incb_ext = |base: &str| -> String {
+        // Extend / ZWJ characters: linker, conjunct extender, or neither
+        if gb9c && ng(&[KA, c, KA]) == 1 {
+            format!("{base}/L")
+        } else if gb9c && ng(&[KA, c, VIRAMA, KA]) == 1 && ng(&[KA, VIRAMA, c, KA]) == 1 {
+            format!("{base}/E")
+        } else {
+            base.to_string()
+        }
+    };
+    if c == "\r" {
+        return "CR".into();
+    }
+    if c == "\n" {
+        return "LF".into();
+    }
+    if c == ZWJ {
+        return incb_ext("ZWJ");
+    }
+    // GB4/GB5: a control character is alone even next to an extender
+    if ng(&["a", c, "\u{0300}"]) == 3 {
+        return "Control".into();
+    }
+    // GB9/GB9a: no break before Extend / SpacingMark; GB11 lets only Extend sit inside an emoji sequence
+    if ng(&["a", c]) == 1 {
+        return if ng(&[PICT, c, ZWJ, PICT]) == 1 { incb_ext("Extend") } else { "SpacingMark".into() };
+    }
+    // GB9b
+    if ng(&[c, "a"]) == 1 {
+        return "Prepend".into();
+    }
+    // GB12/13: pairs
+    if ng(&[c, c]) == 1 && ng(&[c, c, c]) == 2 {
+        return "RI".into();
+    }
+    // GB6-GB8: Hangul syllable parts
+    if ng(&[c, HLV]) == 1 {
+        return "L".into();
+    }
+    if ng(&[HL, c]) == 1 && ng(&[c, HV]) == 1 {
+        return if ng(&[HV, c]) == 1 { "V".into() } else { "LV".into() };
+    }
+    if ng(&[HL, c]) == 1 && ng(&[c, HT]) == 1 {
+        return "LVT".into();
+    }
+    if ng(&[HV, c]) == 1 {
+        return "T".into();
+    }
+    // GB11
+    let base = if ng(&[c, ZWJ, c]) == 1 { "ExtPict" } else { "Other" };
+    // GB9c
+    if gb9c && ng(&[c, VIRAMA, KA]) == 1 {
+        return format!("{base}/C");
+    }
+    base.into()
 }
 
 pub fn charinfo_line(c: char) -> String {
